@@ -637,6 +637,26 @@ def rule_M4b(ctx) -> None:
 # M5 - decode loops make progress
 
 
+def _positive_under_guard(fn: ast.AST, lp: ast.While, st: ast.stmt, name: str) -> bool:
+    """`name` only ever holds non-negative int constants, and `st` sits under `if name:` inside the loop: the step is positive"""
+    vals = []
+    for n in ast.walk(fn):
+        if isinstance(n, ast.Assign):
+            for tgt in n.targets:
+                if isinstance(tgt, ast.Name) and tgt.id == name:
+                    vals.append(n.value)
+                elif isinstance(tgt, ast.Tuple) and isinstance(n.value, ast.Tuple) and len(tgt.elts) == len(n.value.elts):
+                    for e, v in zip(tgt.elts, n.value.elts):
+                        if isinstance(e, ast.Name) and e.id == name:
+                            vals.append(v)
+    if not vals or not all(isinstance(v, ast.Constant) and isinstance(v.value, int) and v.value >= 0 for v in vals):
+        return False
+    for n in ast.walk(lp):
+        if isinstance(n, ast.If) and isinstance(n.test, ast.Name) and n.test.id == name and any(x is st for b in n.body for x in ast.walk(b)):
+            return True
+    return False
+
+
 def rule_M5(ctx) -> None:
     mod = ctx.repo.mod(M_INIT)
     sites = []
@@ -651,6 +671,12 @@ def rule_M5(ctx) -> None:
         var = None
         if t[0] == "op" and t[1] == "<" and t[2][0] == "n" and t[3][0] == "call" and t[3][1] == N("len"):
             var = t[2][1]
+        elif t[0] == "op" and t[1] == "<" and t[2][0] == "n" and t[3][0] == "n":
+            # `pos < end` with a bound that the loop does not change (end = len(buffer) hoisted out of the loop)
+            bound = t[3][1]
+            assigned_in_loop = {x.id for b in lp.body for x in ast.walk(b) if isinstance(x, ast.Name) and isinstance(x.ctx, ast.Store)}
+            if bound not in assigned_in_loop:
+                var = t[2][1]
         name = f"{q}:while {ast.unparse(lp.test)}"
         if var is None and q == "Message.load":
             # the field loop: every iteration takes a field from the reader (>= 1 byte, M5 on load_fields) or leaves
@@ -691,6 +717,9 @@ def rule_M5(ctx) -> None:
                             v = vals[[e.id if isinstance(e, ast.Name) else None for e in tgt.elts].index(var)]
                             if isinstance(v, ast.BinOp) and isinstance(v.op, ast.Add) and isinstance(v.right, ast.Constant) and isinstance(v.right.value, int) and v.right.value > 0 \
                                     and isinstance(v.left, ast.Name) and v.left.id == var:
+                                prog.add(nd.id)
+                            elif isinstance(v, ast.BinOp) and isinstance(v.op, ast.Add) and isinstance(v.left, ast.Name) and v.left.id == var and isinstance(v.right, ast.Name) \
+                                    and _positive_under_guard(fn, lp, nd.stmt, v.right.id):
                                 prog.add(nd.id)
                         elif isinstance(st.value, ast.Call) and ast.unparse(st.value.func) == "decode_varint":
                             prog.add(nd.id)
